@@ -70,8 +70,10 @@ pub fn build_corpus(tag: &str, seed: u64, profile: Profile, programs: usize, sha
     for s in sh.iter_mut() {
         s.source = if darling_only { emit::emit_shard_darling_only(&recvs, &s.ids) } else { emit::emit_shard(&recvs, &s.ids) };
     }
-    let dir = PathBuf::from(format!("/verif/work/corpus/{tag}"));
-    let target = PathBuf::from(format!("/verif/work/target-corpus-{tag}"));
+    // VF_WORK lets a background sweep use its own scratch area (default: /verif/work)
+    let work = std::env::var("VF_WORK").unwrap_or_else(|_| "/verif/work".to_string());
+    let dir = PathBuf::from(format!("{work}/corpus/{tag}"));
+    let target = PathBuf::from(format!("{work}/target-corpus-{tag}"));
     let mut corpus = drive::Corpus::write(&dir, sh, darling_only, suggestions);
     let compile_errors = match corpus.build(&target) {
         Ok(e) => e,
